@@ -129,7 +129,7 @@ def main(argv):
             listed.append((o, known[(pid, base)]))
         else:
             new.append(o)
-    rep_dir = os.path.join(VERIF, "reports", pid)
+    rep_dir = os.path.join(sxlib.OUT, "reports", pid)
     if os.path.isdir(rep_dir):
         shutil.rmtree(rep_dir)
     for o, what in listed:
